@@ -253,7 +253,9 @@ def teardown(ctx):
 
 def child_env(extra):
     env = {'PATH': _ENV['bin'] + ':/usr/local/bin:/usr/bin:/bin', 'HOME': _ENV['home'], 'LANG': 'C.UTF-8',
-           'PYTHONWARNINGS': 'ignore', 'MPLBACKEND': 'Agg', 'TQDM_DISABLE': '1'}
+           'PYTHONWARNINGS': 'ignore', 'MPLBACKEND': 'Agg', 'TQDM_DISABLE': '1',
+           # staggered run times: with num_workers the cases of a batch finish out of submission order
+           fns.STAGGER_ENV: '0.03'}
     env.update(extra)
     return env
 
